@@ -158,6 +158,14 @@ func protect(f func() []modeling.Mesh) (ms []modeling.Mesh, status string) {
 
 func one(m modeling.Mesh) []modeling.Mesh { return []modeling.Mesh{m} }
 
+// worker-pool size of a Scan...ParallelWithPoolSize step: the one the history names, else the default
+func poolOr(n, dflt int) int {
+	if n > 0 {
+		return n
+	}
+	return dflt
+}
+
 // values of attribute (k, name) of m as model cells
 func attrCells(m modeling.Mesh, k int, name string) []cell {
 	o := observe(m)
@@ -284,6 +292,17 @@ func apply(op Op, pool []modeling.Mesh) (ms []modeling.Mesh, status string, coq 
 		}
 		coq = fmt.Sprintf("OSetData %s %s [%s]", kindCoq[op.K], I, strings.Join(items, ";"))
 		ms, status = protect(func() []modeling.Mesh {
+			if op.Nil && len(names) == 0 { // a nil map
+				switch op.K {
+				case 1:
+					return one(m.SetFloat1Data(nil))
+				case 2:
+					return one(m.SetFloat2Data(nil))
+				case 3:
+					return one(m.SetFloat3Data(nil))
+				}
+				return one(m.SetFloat4Data(nil))
+			}
 			switch op.K {
 			case 1:
 				d := map[string][]float64{}
@@ -461,11 +480,11 @@ func apply(op Op, pool []modeling.Mesh) (ms []modeling.Mesh, status string, coq 
 			case "scan1":
 				return one(m.ScanFloat1Attribute(op.Name, func(int, float64) {}))
 			case "scan2":
-				return one(m.ScanFloat2AttributeParallelWithPoolSize(op.Name, 2, func(int, vector2.Float64) {}))
+				return one(m.ScanFloat2AttributeParallelWithPoolSize(op.Name, poolOr(op.N, 2), func(int, vector2.Float64) {}))
 			case "scan3":
 				return one(m.ScanFloat3Attribute(op.Name, func(int, vector3.Float64) {}))
 			case "scan3par":
-				return one(m.ScanFloat3AttributeParallelWithPoolSize(op.Name, 3, func(int, vector3.Float64) {}))
+				return one(m.ScanFloat3AttributeParallelWithPoolSize(op.Name, poolOr(op.N, 3), func(int, vector3.Float64) {}))
 			case "scan4":
 				return one(m.ScanFloat4Attribute(op.Name, func(int, vector4.Float64) {}))
 			case "scanprims":
@@ -473,9 +492,9 @@ func apply(op Op, pool []modeling.Mesh) (ms []modeling.Mesh, status string, coq 
 			case "colorspace-skip":
 				return one(m.Transform(meshops.VertexColorSpaceTransformer{Attribute: op.Name, SkipOnMissingAttribute: true}))
 			case "scan1par":
-				return one(m.ScanFloat1AttributeParallelWithPoolSize(op.Name, 2, func(int, float64) {}))
+				return one(m.ScanFloat1AttributeParallelWithPoolSize(op.Name, poolOr(op.N, 2), func(int, float64) {}))
 			case "scanprimspar":
-				return one(m.ScanPrimitivesParallelWithPoolSize(3, func(int, modeling.Primitive) {}))
+				return one(m.ScanPrimitivesParallelWithPoolSize(poolOr(op.N, 3), func(int, modeling.Primitive) {}))
 			case "pipeline0":
 				return one(pipeline.Pipeline{}.Run(m))
 			case "decimate":
